@@ -95,6 +95,23 @@ REWRITE_MUTS = {
  'U_norec': (C, "            subformulas.append(p.get_equivalent_restricted_formula())\n\n        Lang = sys.modules[self.__module__]\n        return Lang.U(*subformulas)", "            subformulas.append(p)\n\n        Lang = sys.modules[self.__module__]\n        return Lang.U(*subformulas)", ['U.'+G]),
 }
 
+CL = 'CTL/language.py'
+QA, QE = 'CTL.A.' + G, 'CTL.E.' + G
+REWRITE_MUTS.update({
+ 'ctlA_X_noneg': (CL, "            return Not(EX(neg_sf0))", "            return Not(EX(sf0))", [QA]),
+ 'ctlA_F_as_G': (CL, "            return Not(EG(neg_sf0))", "            return Not(EU(True, neg_sf0))", [QA]),
+ 'ctlA_U_wrong_left': (CL, "            return Not(Or(EU(neg_sf1, Not(Or(sf0, sf1))), EG(neg_sf1)))", "            return Not(Or(EU(neg_sf0, Not(Or(sf0, sf1))), EG(neg_sf1)))", [QA]),
+ 'ctlA_U_no_EG': (CL, "            return Not(Or(EU(neg_sf1, Not(Or(sf0, sf1))), EG(neg_sf1)))", "            return Not(EU(neg_sf1, Not(Or(sf0, sf1))))", [QA]),
+ 'ctlA_R_swapped': (CL, "            return Not(EU(neg_sf0, neg_sf1))", "            return Not(EU(neg_sf1, neg_sf0))", [QA]),
+ 'ctlE_F_swapped': (CL, "            return EU(True, sf0)", "            return EU(sf0, True)", [QE]),
+ 'ctlE_R_no_EG': (CL, "            return Or(EU(sf1, Not(Or(neg_sf0, neg_sf1))), EG(sf1))", "            return EU(sf1, Not(Or(neg_sf0, neg_sf1)))", [QE]),
+ 'ctlE_R_wrong_left': (CL, "            return Or(EU(sf1, Not(Or(neg_sf0, neg_sf1))), EG(sf1))", "            return Or(EU(sf0, Not(Or(neg_sf0, neg_sf1))), EG(sf1))", [QE]),
+ 'ctlE_G_norec': (CL, "            return EG(sf0)", "            return EG(p_formula.subformula(0))", [QE]),
+ 'ctlE_U_keeps_F': (CL, "            return EU(sf0, sf1)", "            return EU(sf0, Or(sf1, EF(sf1)))", [QE]),
+ 'ctl_EX_is_EF': (CL, "    return E(X(psi))", "    return E(F(psi))", ['EX']),
+ 'ctl_EU_swapped': (CL, "    return E(U(psi, phi))", "    return E(U(phi, psi))", ['EU']),
+})
+
 
 B = 'BDD/BDD.py'
 BDD_MUTS = {
